@@ -22,7 +22,7 @@ import (
 	"github.com/flamego/flamego/verifharness/internal/rt"
 )
 
-const rule = "case = 1..4 named routes (registered through Get / Route / Routes / Any / Combo, outside a group, inside one, or inside up to three nested groups next to sibling routes) and 1..6 build requests, each an assignment giving every bind a value from {absent, empty, plain, with '/', with '{other-bind}', with '{self}', with '{' or '}', '%41'} plus unknown names, with or without withOptional; " +
+const rule = "case = 1..4 named routes (registered through Get / Route / Routes / Any / Combo, outside a group, inside one, or inside up to three nested groups next to sibling routes) and 1..6 build requests, each an assignment giving every bind a value from {absent, empty, plain, with '/', with '{other-bind}', with '{self}', with '{' or '}', '%41'} plus unknown names (far from every bind, one character away from one, a literal of the route), with or without withOptional; pairs of builds whose lists of pairs read alike once joined with a separator; " +
 	"oracle = own single-pass substitution over the derivation, compared with Router.URLPath and Context.URLPath (inside a handler). Inverse: requests built from route instances are served, the handler builds the URL of its own named route from the parameters it received (optional segment iff the request used it) and must get the decoded request path back. " +
 	"Also: Name(\"\"), a duplicate name and URLPath of an unknown name must panic. " +
 	"non-trivial = a build whose values contain braces or another bind's name, or whose route has >=2 binds or a parameter list, or an inverse check on a path with an escape; distinct by case text"
